@@ -106,3 +106,33 @@ func Equalish(a, b gedcom.Node) bool {
 	}
 	return SameLine(a, b) || a.Equals(b) || b.Equals(a)
 }
+
+// Covers: the input node in and its whole subtree are represented below the
+// result node res: res is Equalish to in and every child of in is covered by some
+// child of res. Returns the first node that is not represented.
+func Covers(res, in gedcom.Node) (bool, gedcom.Node) {
+	if !Equalish(res, in) {
+		return false, in
+	}
+	return CoversKids(res, in)
+}
+
+// CoversKids is Covers without the test of the two roots themselves.
+func CoversKids(res, in gedcom.Node) (bool, gedcom.Node) {
+	for _, c := range in.Nodes() {
+		ok := false
+		var miss gedcom.Node = c
+		for _, rc := range res.Nodes() {
+			if r, m := Covers(rc, c); r {
+				ok = true
+				break
+			} else if m != c {
+				miss = m
+			}
+		}
+		if !ok {
+			return false, miss
+		}
+	}
+	return true, nil
+}
